@@ -384,9 +384,20 @@ func (r *rng) item(p profile, w, h int) (int, string) {
 				s += r.pick("?", ">", "<", "=")
 			}
 			np := r.n(4)
+			if r.chance(1, 4) {
+				// the property's whole range of parameter counts, and the sizes a parameter store is likely to have
+				np = []int{r.n(22), r.n(22), 8, 9, 15, 16, 17, 18, 20, 21, 31, 32, 33, 34}[r.n(14)]
+			}
+			// sub-parameter separators end the parameter scan early: most sequences have none, so that long parameter
+			// lists are really scanned to their end (seeded change C09-m10 went unnoticed behind a colon)
+			colons := r.chance(1, 3)
 			for i := 0; i < np; i++ {
 				if i > 0 {
-					s += r.pick(";", ";", ":")
+					if colons {
+						s += r.pick(";", ";", ":")
+					} else {
+						s += ";"
+					}
 				}
 				if r.chance(4, 5) {
 					s += fmt.Sprint(r.n(40))
